@@ -171,6 +171,69 @@ theorem scalar_forms_equal {db : Db} {c u : Sym} {q : Qty} (f g : Option Rat) (v
   · rw [scalar_tuple_form_agrees]; exact h0.trans hb
   · exact ((createWithQuantity_agrees db q _ kw rfl).1).trans hb
 
+/-- **Scalar and FractionScalar store `float(x)`, whatever `x` is**: a Python int that no double holds
+exactly (`2**53 + 1`, `10**23`), a bool, a numpy integer, a string of digits, a FractionValue (for
+Scalar) — the created object carries the float image, never the argument itself -/
+theorem create_stores_float (db : Db) (q : Qty) (x : PyVal) (v : Rat) (hx : x.isNone = false)
+    (hv : pyFloat x = .ok v) :
+    create db .scalar q x = .ok ⟨q, .scalar v⟩
+    ∧ ((∀ n f, x ≠ .fv n f) → create db .fraction q x = .ok ⟨q, .fraction v 0⟩) := by
+  constructor
+  · simp [create, internalCreate, scalarInternal, hx, hv]
+  · intro hfv
+    cases x with
+    | fv n f => exact absurd rfl (hfv n f)
+    | atom a => simp [create, internalCreate, fractionInternal, hv]
+    | seq k l => simp [create, internalCreate, fractionInternal, hv]
+    | qty q' => simp [create, internalCreate, fractionInternal, hv]
+
+/-- **all Scalar forms build one object holding `float(a)`, for every kind of number `a`** (floats,
+ints of any size with their float image, bools, numpy integers): the generalisation of
+`scalar_forms_equal` from `.num` to any atom that is a value and converts to float.  In particular
+`Scalar.CreateWithQuantity(q, 2**53 + 1)` equals `Scalar(2**53 + 1, u)`. -/
+theorem scalar_forms_store_float {db : Db} {c u : Sym} {q : Qty} (f g : Option Rat) (a : Atom) (v : Rat) (kw : Bool)
+    (ha : (PyVal.atom a).isValueFor .scalar = true) (hv : pyFloat (.atom a) = .ok v)
+    (hc : getDefaultCategory db u = .ok (some c)) (hc0 : c ≠ 0)
+    (hq : newQuantity db (.str c none) u = .ok q) :
+    let o : Obj := ⟨q, .scalar v⟩
+    construct db .scalar (.atom a) (.atom (.str u g)) .none = .ok o
+    ∧ construct db .scalar (.atom a) (.atom (.str u g)) (.str c f) = .ok o
+    ∧ construct db .scalar (.atom (.str c f)) (.atom a) (.str u g) = .ok o
+    ∧ construct db .scalar (.seq .tuple [a, .str u g]) .none .none = .ok o
+    ∧ construct db .scalar (.qty q) (.atom a) .none = .ok o
+    ∧ createWithQuantity db .scalar q (.atom a) kw none = .ok o
+    ∧ Obj.eq o o = .ok true := by
+  intro o
+  have hn := isValueFor_notNone ha
+  obtain ⟨h1, h2, _, h4⟩ := forms_with_category_agree f g .scalar _ hq ha
+  obtain ⟨h0, _⟩ := form_without_category_agrees g .scalar _ hc hc0 hq ha
+  have hb := (create_stores_float db q _ v hn hv).1
+  refine ⟨h0.trans hb, h1.trans hb, h2.trans hb, ?_, h4.trans hb, ?_, (eq_self q).1 v⟩
+  · have : construct db .scalar (.seq .tuple [a, .str u g]) .none .none
+        = construct db .scalar (.atom a) (.atom (.str u g)) .none := rfl
+    rw [this]; exact h0.trans hb
+  · exact ((createWithQuantity_agrees db q _ kw hn).1).trans hb
+
+/-- the same for FractionScalar: every form holds `FractionValue(float(a))` -/
+theorem fraction_forms_store_float {db : Db} {c u : Sym} {q : Qty} (f g : Option Rat) (a : Atom) (v : Rat) (kw : Bool)
+    (ha : (PyVal.atom a).isValueFor .fraction = true) (hv : pyFloat (.atom a) = .ok v)
+    (hc : getDefaultCategory db u = .ok (some c)) (hc0 : c ≠ 0)
+    (hq : newQuantity db (.str c none) u = .ok q) :
+    let o : Obj := ⟨q, .fraction v 0⟩
+    construct db .fraction (.atom a) (.atom (.str u g)) .none = .ok o
+    ∧ construct db .fraction (.atom a) (.atom (.str u g)) (.str c f) = .ok o
+    ∧ construct db .fraction (.atom (.str c f)) (.atom a) (.str u g) = .ok o
+    ∧ construct db .fraction (.qty q) (.atom a) .none = .ok o
+    ∧ createWithQuantity db .fraction q (.atom a) kw none = .ok o
+    ∧ Obj.eq o o = .ok true := by
+  intro o
+  have hn := isValueFor_notNone ha
+  obtain ⟨h1, h2, _, h4⟩ := forms_with_category_agree f g .fraction _ hq ha
+  obtain ⟨h0, _⟩ := form_without_category_agrees g .fraction _ hc hc0 hq ha
+  have hb := (create_stores_float db q _ v hn hv).2 (fun n f' h => by cases h)
+  exact ⟨h0.trans hb, h1.trans hb, h2.trans hb, h4.trans hb,
+    ((createWithQuantity_agrees db q _ kw hn).2.1).trans hb, (eq_self q).2.1 v 0⟩
+
 /-- **the FractionScalar forms build one object**, for a number and for a FractionValue -/
 theorem fraction_forms_equal {db : Db} {c u : Sym} {q : Qty} (f g : Option Rat) (x : PyVal) (o : Obj) (kw : Bool)
     (hc : getDefaultCategory db u = .ok (some c)) (hc0 : c ≠ 0)
@@ -394,6 +457,24 @@ theorem posc_scalar_forms_equal : ∀ r ∈ poscDb.units, ∃ c, getDefaultCateg
   intro r hr
   obtain ⟨c, hc, hc0, hq⟩ := posc_default_category_resolves r hr
   exact ⟨c, hc, fun f g v i kw => scalar_forms_equal f g v i kw hc hc0 hq⟩
+
+/-- for every unit and every kind of number (big ints, bools, numpy ints included): all Scalar forms,
+`CreateWithQuantity` among them, hold `float(a)` and are one object -/
+theorem posc_scalar_forms_store_float : ∀ r ∈ poscDb.units, ∃ c, getDefaultCategory poscDb r.sym = .ok (some c) ∧
+    ∀ (f g : Option Rat) (a : Atom) (v : Rat) (kw : Bool),
+      (PyVal.atom a).isValueFor .scalar = true → pyFloat (.atom a) = .ok v →
+      let q : Qty := ⟨c, r.sym⟩
+      let o : Obj := ⟨q, .scalar v⟩
+      construct poscDb .scalar (.atom a) (.atom (.str r.sym g)) .none = .ok o
+      ∧ construct poscDb .scalar (.atom a) (.atom (.str r.sym g)) (.str c f) = .ok o
+      ∧ construct poscDb .scalar (.atom (.str c f)) (.atom a) (.str r.sym g) = .ok o
+      ∧ construct poscDb .scalar (.seq .tuple [a, .str r.sym g]) .none .none = .ok o
+      ∧ construct poscDb .scalar (.qty q) (.atom a) .none = .ok o
+      ∧ createWithQuantity poscDb .scalar q (.atom a) kw none = .ok o
+      ∧ Obj.eq o o = .ok true := by
+  intro r hr
+  obtain ⟨c, hc, hc0, hq⟩ := posc_default_category_resolves r hr
+  exact ⟨c, hc, fun f g a v kw ha hv => scalar_forms_store_float f g a v kw ha hv hc hc0 hq⟩
 
 /-- for every unit: the FractionScalar forms build the same object for every number -/
 theorem posc_fraction_forms_equal : ∀ r ∈ poscDb.units, ∃ c, getDefaultCategory poscDb r.sym = .ok (some c) ∧
